@@ -168,7 +168,7 @@ fn make_all<E: Elem, const N: usize>(vs: &[i8]) -> SmallVec<E, N> {
 }
 
 /// Run the history against SmallVec<E, N> and the Vec<E> model.
-fn run_history<E: Elem, const N: usize>(c: &SvCase) -> Result<Info, (String, String)> {
+pub fn run_history<E: Elem, const N: usize>(c: &SvCase) -> Result<Info, (String, String)> {
     LIVE.with(|l| l.borrow_mut().clear());
     BAD.with(|b| *b.borrow_mut() = None);
     let fail = |kind: &str, msg: String| Err((kind.to_string(), msg));
@@ -465,6 +465,12 @@ impl Property for C18 {
             }
         }
         c
+    }
+    fn fuzz_target(&self) -> Option<&'static str> {
+        Some("smallvec")
+    }
+    fn decode_fuzz(&self, bytes: &[u8]) -> Option<SvCase> {
+        crate::fuzzdec::sv_case(&mut arbitrary::Unstructured::new(bytes)).ok()
     }
     fn floors(&self, tier: Tier) -> Vec<(&'static str, u64)> {
         let q = if tier == Tier::Quick { 1 } else { 25 };
